@@ -71,6 +71,7 @@ Spawn(c) == [n |-> run.n + 1, alive |-> TRUE, exitAt |-> IF c.self = Inf THEN In
 
 JobStep ==
     /\ timer = -1 /\ jobq # <<>> /\ ~Sleeping
+    /\ waiter # "sent"          \* a control of high priority (the waiter's to_wait) goes first
     /\ sleepUntil' = IF Head(jobq) = "DL" THEN now + Delay ELSE sleepUntil
     /\ LET h == Head(jobq) rest == Tail(jobq) IN
        CASE h = "DL" ->      \* the --delay-run sleep: awaited inline by the job task
@@ -83,7 +84,7 @@ JobStep ==
                    [] Mode = "queue" ->
                         /\ jobq' = rest
                         /\ IF queued THEN UNCHANGED <<queued, waiter, Mode, Postpone, Delay, D, G>>
-                           ELSE queued' = TRUE /\ waiter' = "waiting"
+                           ELSE queued' = TRUE /\ waiter' = "spawned"
                         /\ UNCHANGED <<run, timer, hist, Mode, Postpone, Delay, D, G>>
               ELSE /\ jobq' = rest \o <<"ST">> /\ UNCHANGED <<run, timer, queued, waiter, hist>>
          [] h = "SG" ->        \* the signal control that the query queued (signal mode)
@@ -130,7 +131,22 @@ TimerFire ==
     /\ hist' = [hist EXCEPT !.kills = @ + 1]
     /\ UNCHANGED <<sleepUntil, now, jobq, queued, windowEnd, changes, Mode, Postpone, Delay, D, G>>
 
-\* queue mode: to_wait() resolved; the waiter calls start() and run()
+\* queue mode: the waiter task, spawned by the query, gets to run and sends its to_wait() - a control of
+\* high priority - to the job; how soon is up to the scheduler (on the single-threaded runtime: when the
+\* job task next has nothing to do)
+WaiterSend ==
+    /\ waiter = "spawned"
+    /\ waiter' = "sent"
+    /\ UNCHANGED <<sleepUntil, now, run, timer, jobq, queued, windowEnd, changes, hist, Mode, Postpone, Delay, D, G>>
+
+\* the job task takes the to_wait(): it waits for the end of the run in progress at that moment - which
+\* may already be a later one than the run the query saw - or resolves at once if there is none
+JobToWait ==
+    /\ waiter = "sent" /\ ~Sleeping
+    /\ waiter' = IF run.alive THEN "waiting" ELSE "woken"
+    /\ UNCHANGED <<sleepUntil, now, run, timer, jobq, queued, windowEnd, changes, hist, Mode, Postpone, Delay, D, G>>
+
+\* to_wait() resolved; the waiter calls start() and run()
 WaiterStart ==
     /\ waiter = "woken"
     /\ jobq' = jobq \o <<"ST", "WR">>
@@ -147,12 +163,13 @@ Enabled0 ==
     \/ (timer = -1 /\ jobq # <<>> /\ ~Sleeping)
     \/ (run.alive /\ now >= run.exitAt /\ ~Sleeping)
     \/ (timer # -1 /\ now >= timer /\ run.alive /\ ~Sleeping)
-    \/ (WaiterAtomic /\ waiter \in {"woken", "resetting"})      \* otherwise: arbitrary wake-up latency
+    \/ (waiter = "sent" /\ ~Sleeping)
+    \/ (WaiterAtomic /\ waiter \in {"spawned", "woken", "resetting"})      \* otherwise: arbitrary wake-up latency
 
 Tick == /\ ~Enabled0 /\ now < MaxTime /\ now' = now + 1
         /\ UNCHANGED <<sleepUntil, run, timer, jobq, queued, waiter, windowEnd, changes, hist, Mode, Postpone, Delay, D, G>>
 
-Next == Change \/ HandlerFire \/ JobStep \/ ChildExit \/ TimerFire \/ WaiterStart \/ WaiterReset \/ Tick
+Next == Change \/ HandlerFire \/ JobStep \/ ChildExit \/ TimerFire \/ WaiterSend \/ JobToWait \/ WaiterStart \/ WaiterReset \/ Tick
 Spec == Init /\ [][Next]_cvars
 
 ---------------------------------------------------------------------------
